@@ -32,7 +32,7 @@ def examples(tier):
 @st.composite
 def strategy_(draw, tier):
     n = draw(st.integers(1, 3))
-    ents = [dict(kind=draw(st.sampled_from(["file", "empty", "tree", "tree", "link_dangling", "link_dir", "dir"])),
+    ents = [dict(kind=draw(st.sampled_from(["file", "empty", "tree", "tree", "link_dangling", "link_dir", "dir", "fifo"])),
                  name=draw(st.sampled_from(["foo", "foo", "bar"]) if i == 0 else gen.names(long_ok=False)),
                  tree=draw(gen.entry_nodes("/E", "tree", ["/keep", "nowhere"])),
                  big=draw(st.booleans()))
@@ -98,6 +98,8 @@ def build(case):
                 nodes.append(n)
         elif k == "link_dangling":
             nodes.append({"p": p, "t": "l", "to": "nowhere"})
+        elif k == "fifo":
+            nodes.append({"p": p, "t": "p", "m": 0o640, "mt": 1234567890})
         else:
             nodes.append({"p": p, "t": "l", "to": "/keep"})
         files.append(p)
@@ -162,7 +164,10 @@ def run_case(case):
     tags = dict(target=case["target"], state=case["state"])
     out.classes += ["target:" + case["target"], "state:" + case["state"], "ops:%d" % (n // 10 * 10),
                     "ref_exit:%d" % ref.code]
-    if ref.code != 0:
+    special_xdev = any(e["kind"] == "fifo" for e in case["ents"]) and "fallback" in case["target"] or \
+        any(e["kind"] == "fifo" for e in case["ents"]) and case["target"].endswith("_fb")
+    if ref.code != 0 and not special_xdev:
+        # (a fifo cannot be copied to another volume: there the fault-free run legitimately refuses it)
         out.fail("reference_run_failed", "fault-free trash-put failed: %r" % ref.err[-300:], **tags)
         return out
     judge(out, before, sandbox.snapshot(), files, tags, "no crash")
